@@ -219,6 +219,12 @@ def clone (X : Ctx) : VM VSt := do
         push X e'))
     pure o
 
+/-- the default `Clone::clone_from`: `*self = source.clone()` — clone first, then the old value is dropped;
+    an assignment stores the new value also when dropping the old one unwinds -/
+def clone_from (X : Ctx) (src : VSt) : VM Unit := do
+  let (c, _) ← onVec src (clone X)
+  guarded (dropVec X) (setV c)
+
 /-- the body of `MiniVec::resize`, while `value` is still owned by the call -/
 def resizeBody (X : Ctx) (newLen : Nat) (value : Elem) : VM Unit := do
   let r ← lift X (Gen.resize_pre X.env newLen)
@@ -412,6 +418,25 @@ def remove_item (X : Ctx) (probe : Elem) : VM (Option Elem) := do
         else go fuel (i + 1)
     go env.v_len 0
 
+/-- the cloning loop of `extend_from_within` under its `PanicGuard { count }`, which publishes the clones
+    that completed also when unwinding -/
+def efwGo (X : Ctx) (len cap : Nat) (p : DPtr) : Nat → Nat → Nat → VM Nat
+  | 0, _, count => fun s => (.ok count, s)
+  | fuel + 1, i, count => fun s =>
+    match (do
+        let e ← rd p i
+        let e' ← cloneElem X e
+        if len + count < cap then wr p (len + count) e' else dropElem X e'
+        pure () : VM Unit) s with
+    | (.ok _, s1) => efwGo X len cap p fuel (i + 1) (if len + count < cap then count + 1 else count) s1
+    | (.error q, s1) =>
+      -- the guard's destructor runs with the count reached so far
+      if unwinds q then
+        (match lift X (Gen.set_len X.env (len + count)) s1 with
+         | (.ok _, s2) => (.error q, s2)
+         | (.error q2, s2) => (.error q2, s2))
+      else (.error q, s1)
+
 /-- `MiniVec::extend_from_within` -/
 def extend_from_within (X : Ctx) (b1 b2 : Bound) : VM Unit := do
   let r ← lift X (Gen.extend_from_within_pre X.env b1 b2)
@@ -421,27 +446,9 @@ def extend_from_within (X : Ctx) (b1 b2 : Bound) : VM Unit := do
     let start := env.v_start_idx
     let stop := env.v_end_idx
     let len := env.v_len
-    -- PanicGuard { count } : publishes the clones that completed, also when unwinding
     let cap ← lift X (Gen.capacity X.env)
     let p ← lift X (Gen.as_mut_ptr X.env)
-    let rec go (fuel i count : Nat) : VM Nat := fun s =>
-      match fuel with
-      | 0 => (.ok count, s)
-      | fuel + 1 =>
-        match (do
-            let e ← rd p i
-            let e' ← cloneElem X e
-            if len + count < cap then wr p (len + count) e' else dropElem X e'
-            pure ()) s with
-        | (.ok _, s1) => go fuel (i + 1) (if len + count < cap then count + 1 else count) s1
-        | (.error q, s1) =>
-          -- the guard's destructor runs with the count reached so far
-          if unwinds q then
-            (match lift X (Gen.set_len X.env (len + count)) s1 with
-             | (.ok _, s2) => (.error q, s2)
-             | (.error q2, s2) => (.error q2, s2))
-          else (.error q, s1)
-    let count ← go (stop - start) start 0
+    let count ← efwGo X len cap p (stop - start) start 0
     lift X (Gen.set_len X.env (len + count))
 
 def spare (X : Ctx) : VM Nat := do
